@@ -22,9 +22,13 @@ TRUSTED = ["harness/h_C12.cpp + h_C12_app.h + h_C12_node.inc: the application fa
            "apropos table (model), and the Python reference semantics used by the Spec oracle",
            "ocaml/C12/driver.ml pt_of_case: the case's port tree as a TreeApp.pt (names and structure from the tree field, leaf "
            "data from the flat application)",
-           "per-line premise line_reads of C12_roundtrip_tree_real_partial for lines outside C10's goodc fragment (see notes/C12.md stage 5)"]
+           "C10's float text model (FloatFmt.fmt_f / fmt_a = glibc's printf, tied by C10 and, for the saved bodies, by the body= comparison here)"]
 ASSUMPTIONS = ["the application is well formed: defaults inside the declared range, a preset selector has a plain default, "
-               "sibling names are prefix-free, float defaults are written as exact decimals, no NaN",
+               "sibling names are prefix-free, float defaults are written as exact decimals, no NaN (a NaN compares unequal to itself, "
+               "\"the same state\" is not defined for it; C14 records that a NaN is stored whatever the range)",
+               "float parameters hold finite values and option parameters a number inside their declared range: states with +-inf "
+               "or an out-of-range option number (unknown symbol: INT_MIN) are generated (every 10th application) and fail - finding "
+               "classes nonfinite-float, option-outside-range",
                "state = the parameters the walk reaches (parameters below a switched-off enabled-by toggle are not part of it)"]
 
 def one_app(rng, tier, dist, opts=None):
@@ -32,7 +36,33 @@ def one_app(rng, tier, dist, opts=None):
     ref = sc.Ref(app)
     return app, ref
 
+_DIST = {}
+
+def count_cond(line, dist):
+    """the model driver evaluates the theorems' side conditions for every case (Save/CondModel.v: wf_app_b,
+    full_conditions_b, ranked_b; Save/LinesModel.v: good_line_b) and prints them in the fields cond= / cls=;
+    they are counted into the evidence's input distribution (vcheck keeps the dict gen() was given)"""
+    kv = sc.kv_fields(line)
+    c = kv.get("cond", "-")
+    if c == "-":
+        return
+    dist["cases with conditions evaluated"] = dist.get("cases with conditions evaluated", 0) + 1
+    for t in c.split(","):
+        name = {"wf": "wf_app holds", "full": "full_conditions holds", "rk": "dependency edges acyclic (ranked)",
+                "ds": "defaults_stable holds", "mo": "every message of the history is msg_ok"}.get(t[:-1], t[:-1])
+        if t.endswith("1"):
+            dist[name] = dist.get(name, 0) + 1
+    cl = kv.get("cls", "-")
+    if "/" in cl:
+        g, t = cl.split("/")
+        dist["saved lines"] = dist.get("saved lines", 0) + int(t)
+        dist["saved lines in good_line"] = dist.get("saved lines in good_line", 0) + int(g)
+        if g == t:
+            dist["cases with every saved line in good_line"] = dist.get("cases with every saved line in good_line", 0) + 1
+
 def gen(rng, tier, dist):
+    global _DIST
+    _DIST = dist
     n = 1500 if tier == "quick" else 20000
     out = list(sc.macro_cases())
     dist["macro-made metadata blocks"] = len(out)
@@ -50,7 +80,13 @@ def gen(rng, tier, dist):
         r = rng.random()
         if r < 0.8 or not ref.flat:
             nops = rng.choice([0, 1, 2, 3, 5, 8, 14])
-            ops, mops = sc.gen_ops(rng, ref, nops)
+            # every 10th application also receives messages whose states the file does not carry: +-inf
+            # on float ports, a symbol outside the map on a scalar option port (finding classes, see classify)
+            exotic = 0.15 if c % 10 == 3 else 0.0
+            ops, mops = sc.gen_ops(rng, ref, nops, exotic=exotic, fill=0.3)
+            if exotic:
+                dist["save with non-finite floats / unknown option symbols among the messages"] = \
+                    dist.get("save with non-finite floats / unknown option symbols among the messages", 0) + 1
             out.append("save %s %s %s %s %s" % (tree, flat, ops, apro, mops))
             dist["save ops=%d" % nops] = dist.get("save ops=%d" % nops, 0) + 1
             dist["ports"] = dist.get("ports", 0) + len(ref.flat)
@@ -105,7 +141,7 @@ def gen_rej(rng, app, ref, tree, flat, apro):
     h1 = "% RT OSC v" + vers + " savefile"
     h2 = "% verifapp v1.2.3"
     appname = "verifapp"
-    kind = rng.choice(["ok", "ok", "hdr", "hdrver", "app", "appname", "junk", "unmatched", "unmatched", "argtype"])
+    kind = rng.choice(["ok", "ok", "hdr", "hdrver", "app", "appname", "junk", "unmatched", "unmatched", "argtype", "arrlen"])
     nl = rng.choice([0, 1, 2, 3, 5])
     idx = [rng.randrange(len(ref.flat)) for _ in range(nl)]
     seen, lines = set(), []
@@ -130,6 +166,25 @@ def gen_rej(rng, app, ref, tree, flat, apro):
         body.insert(rng.randint(0, len(body)), (rng.choice(["/x $1", "$", "/a [1 2", "/b 'ab'", "/vol 1 2 $"]), "j"))
     elif kind == "unmatched":
         body.insert(rng.randint(0, len(body)), (rng.choice(["/nosuchport 1", "/zz/q true", "/none"]), "u"))
+    elif kind == "arrlen":
+        # an array line with one element more than the port has: the message for index N reaches no port
+        arrs = [i for i, fp in enumerate(ref.flat) if fp.leaf.is_array() and i not in seen and not fp.hard]
+        if arrs:
+            i = rng.choice(arrs)
+            p = ref.flat[i].leaf
+            for _ in range(50):
+                t, arr, vals = line_text(rng, ref, i)
+                if len(vals.split(":")) == p.n:
+                    break
+            if len(vals.split(":")) == p.n:
+                extra_t, extra_v = t[t.index("[") + 1:-1].split(" ")[0], vals.split(":")[0]
+                t = t[:-1] + " " + extra_t + "]"
+                vals = vals + ":" + extra_v
+                body.insert(rng.randint(0, len(body)), (t, "m,%s,%s,%s" % (sc.hx(t.split(" ")[0]), arr, vals)))
+            else:
+                kind = "ok"
+        else:
+            kind = "ok"
     elif kind == "argtype" and ref.flat:
         i = rng.randrange(len(ref.flat))
         p = ref.flat[i].leaf
@@ -193,16 +248,28 @@ def canon(case, line):
     f = case.split(" ")
     if line.startswith("CRASH") or line.startswith("BADCASE") or line == "NOOUT":
         return line
+    count_cond(line, _DIST)
     kv = sc.kv_fields(line)
+    if f[0] == "save" and state_classes(case, line)[0]:
+        # the state holds a non-finite float: the printer's model (C10's FloatFmt) covers finite values only and
+        # the abstract load works on scanned items, so only what leads up to the save is compared: the state
+        # reached by the messages.  What the library does with the file is judged by the Spec oracle alone
+        # (finding class nonfinite-float).
+        return "hdr=%s A=%s (state with a non-finite float: print / scan not modelled)" % (
+            kv.get("hdr"), ",".join(sorted(t for t in kv.get("A", "-").split(",") if not t.endswith("=NULL"))) or "-")
     def sort_dump(d):
         return ",".join(sorted(t for t in d.split(",") if not t.endswith("=NULL"))) or "-"
     if f[0] == "save":
         ret = kv.get("ret", "?")
         if ret.startswith("-"):
             ret = "NEG"
-        return "hdr=%s lines=%s ret=%s A=%s B=%s fresh=%s" % (
+        # body = the text of the saved body line by line (hex, sorted): save_to_file's bytes against the
+        # printer's model (C10's print_message with the default options, Save/LinesModel.v); cls is the
+        # model's count of lines inside good_line_b and is not compared
+        return "hdr=%s lines=%s ret=%s A=%s B=%s fresh=%s body=%s" % (
             kv.get("hdr"), "|".join(sorted(kv.get("lines", "-").split("|"))), ret,
-            sort_dump(kv.get("A", "-")), sort_dump(kv.get("B", "-")), "|".join(sorted(kv.get("fresh", "-").split("|"))))
+            sort_dump(kv.get("A", "-")), sort_dump(kv.get("B", "-")), "|".join(sorted(kv.get("fresh", "-").split("|"))),
+            kv.get("body", "-"))
     if f[0] == "rej":
         return "ret=%s B=%s" % (kv.get("ret"), sort_dump(kv.get("B", "-")))
     return line
@@ -239,14 +306,48 @@ def spec_check(case, impl):
         ret = int(kv["ret"])
         nmsgs = 0 if f[6].split(";")[2] == "-" else len(f[6].split(";")[2].split("+"))
         if kind == "ok":
-            # every line addresses an existing port unless it lies below a pointer sub-tree
-            hard = any(fp.hard for fp in ref.flat)
-            if ret != nmsgs and not hard:
+            # every line addresses a port and carries a value it takes; whether the port EXISTS when the line's
+            # turn comes (below a pointer sub-tree: only while its switch is on) is decided by running the lines
+            # on the reference semantics in a dependency-respecting order (switches and selectors first)
+            accepted = rej_all_accepted(ref, f[6].split(";")[2])
+            if accepted and ret != nmsgs:
                 return "accept: a well-formed file of %d lines gave %d" % (nmsgs, ret)
+            if not accepted and ret >= 0:
+                return "reject: a line below an absent pointer sub-tree was accepted (result %d)" % ret
         elif ret >= 0:
             return "reject: a file with a bad part (%s) was accepted with result %d" % (kind, ret)
         return None
     return None
+
+def rej_all_accepted(ref, items):
+    """the hand-written lines of a `rej` case applied to a default-initialised instance: True when every
+    line reaches a port"""
+    if items == "-":
+        return True
+    def scalar(t):
+        if t in ("T", "F"):
+            return (t, None)
+        if t[0] in "ic":
+            return (t[0], int(t[1:]))
+        if t[0] == "f":
+            return ("f", int(t[1:], 16))
+        return (t[0], b"" if t[1:] in ("", "-") else bytes.fromhex(t[1:]))
+    lines = []
+    for it in items.split("+"):
+        g = it.split(",")
+        if g[0] != "m":
+            return False
+        path = bytes.fromhex(g[1]).decode("latin-1")
+        if path not in ref.bypath:
+            return False
+        lines.append((ref.bypath[path], [] if g[3] == "-" else [scalar(t) for t in g[3].split(":")]))
+    sels = {fp.sel for fp in ref.flat if fp.sel is not None}
+    lines.sort(key=lambda l: (len(ref.flat[l[0]].hard), 0 if l[0] in sels else 1))
+    for i, vals in lines:
+        for k, v in enumerate(vals):
+            if not ref.send(i, k, v):
+                return False
+    return True
 
 def nontrivial(case, impl):
     f = case.split(" ")
@@ -255,7 +356,52 @@ def nontrivial(case, impl):
         return kv.get("lines", "-").count("|") >= 1
     return f[0] == "rej" and len(f) > 7 and f[7] != "ok"
 
+def nonfinite(b):
+    return (b & 0x7f800000) == 0x7f800000
+
+def state_classes(case, line):
+    """(ports holding a non-finite float, scalar option ports holding a number outside their declared
+    min / max) in the state the file is saved from (the A= dump of an output line)"""
+    f = case.split(" ")
+    kv = sc.kv_fields(line)
+    if f[0] != "save" or "A" not in kv:
+        return [], []
+    ref = sc.ref_from_flat(sc.parse_flat(f[2]))
+    try:
+        sa, _ = sc.state_from_dump(ref, kv["A"])
+    except Exception:
+        return [], []
+    nf, out = [], []
+    def outside(p, v):
+        return p.elem_kind() == "o" and any((p.min is not None and x < p.min) or (p.max is not None and x > p.max) for x in v)
+    for fp, v in zip(ref.flat, sa):
+        if v is None:
+            continue
+        p = fp.leaf
+        if p.elem_kind() == "f" and any(nonfinite(x) for x in v):
+            nf.append(fp.path)
+        if outside(p, v):
+            out.append(fp.path)
+        elif fp.sel is not None and sa[fp.sel] is not None and outside(ref.flat[fp.sel].leaf, sa[fp.sel]):
+            out.append(fp.path)      # its preset selector holds such a number: the default it selects changes with the clamp
+    return nf, out
+
 def classify(case, impl, failure):
+    """nonfinite-float: the saved state holds +-inf (or a NaN) in a float parameter - exactly the values
+    good_scalar1 / good_elem (Save/PrintLines.v, premise good_line of C12_roundtrip_tree_real_lines_partial)
+    exclude with f32_finite; the file then contains text the scanner rejects and loading fails as a whole.
+    option-outside-range: an option parameter holds a number outside its declared min / max (stored by a
+    symbol message: rCOptionCb's symbol branch does not clamp; an unknown symbol gives INT_MIN) - a value
+    that is not a fixed point of the port's callback, the clause `stable` of full_conditions; the round-trip
+    failure must name that port."""
+    if case.split(" ")[0] != "save":
+        return None
+    nf, out = state_classes(case, impl)
+    kind = failure.split(":")[0]
+    if nf and kind in ("minimal", "count", "roundtrip"):
+        return "nonfinite-float"
+    if out and kind == "roundtrip" and any(failure.startswith("roundtrip: %s is " % p) for p in out):
+        return "option-outside-range"
     return None
 
 def minimise(case, impl, failure, run):
@@ -291,11 +437,19 @@ LEVEL_TEXT = ("For every abstract application and state: a line is saved exactly
               "model, C13_topo) and the value-equality stage (C16's vals_eq model, C16_eq_is_key_equality) instantiated "
               "(C12_roundtrip_pipeline_sorted_eq_partial). For applications that ARE port trees of macro-made ports (app_of_tree t, "
               "Save/TreeApp.v: parameter leaves, embedded / enumerated / pointer sub-trees of one component, 'enabled by' a toggle of the "
-              "parent table; names_ok) every stage is the model of the code that implements it (C12_roundtrip_tree_real_partial): the walk "
+              "parent table or a toggle inside the sub-tree ('name/tg', 'name#N/tg'), rSelf ports 'enabled by' a toggle of their table; switches_ok, names_ok) every stage is the model of the code that implements it (C12_roundtrip_tree_real_partial): the walk "
               "with the runtime object (C09, C12_walk_stage), the dispatch of every saved line to the tree with the macros' callbacks "
-              "(C04 + C14, C12_dispatch_elem / C12_dispatch_stage), print/scan of the body (C10, C12_body_scans); what remains assumed of a "
-              "stage is per saved line outside C10's goodc fragment (floats, plain option symbols, [..] array lines): line_reads. "
-              "C12_eq_stage_array: the 'a'-header comparison of #N ports.")
+              "(C04 + C14, C12_dispatch_elem / C12_dispatch_stage), print/scan of the body (C10, C12_body_scans).  Since stage 6 NO premise "
+              "about a stage is left (C12_roundtrip_tree_real_lines_partial): every saved line of the class good_line - one value of any "
+              "parameter kind (32-bit int, char, finite float with both zeroes, T/F, string / symbol without NUL) or one array of such "
+              "elements of one type (C10's list-level conditions inside arrays) - is printed by the model (C12_good_line_prints, compression "
+              "on: C12_array_message_prints) and read back whatever follows (C12_good_line_reads); the class is decidable (good_line_b) and "
+              "evaluated on every saved line in the tie, where the saved bytes are also compared with the printer's model.  The side "
+              "conditions on application and state are decidable and evaluated per case (wf_app_b, full_conditions_b, defaults_stable_b, "
+              "msg_ok_b; C13: ranked_b), and states reached by parameter messages satisfy them (C12_reachable_full_conditions).  Excluded and "
+              "generated as findings: +-inf in a float parameter (nonfinite-float), an option number outside the declared range after a symbol "
+              "message (option-outside-range).  C12_eq_stage_array: the 'a'-header comparison of #N ports.")
 LEVEL_NOTE = ("the differential run is against the abstract application; on every save case whose tree is inside TreeApp.v's class the model "
               "driver also evaluates the tree stages (flattening = the case's application, walk_tree = live ports, saved lines dispatched on "
-              "the tree = apply_line) and marks the case when one fails; see notes/C12.md (stage 5) for the remaining premises")
+              "the tree = apply_line) and marks the case when one fails; the fields cls= / cond= of the model's output carry the evaluated "
+              "conditions (counted into input_distribution); see notes/C12.md (stage 6) for the remaining premises")
